@@ -125,6 +125,15 @@ class Ctx(object):
         for r in self.pool().imap(fn, items, chunksize):
             yield r
 
+    def pimap_unordered(self, fn, items, chunksize=1):
+        items = list(items)
+        if self.jobs <= 1 or len(items) <= 1:
+            for i in items:
+                yield fn(i)
+            return
+        for r in self.pool().imap_unordered(fn, items, chunksize):
+            yield r
+
     def close(self):
         if self._pool is not None:
             self._pool.terminate()
